@@ -57,13 +57,13 @@ func c16GenNoise(s *src, o *out) {
 	if len(l) != 11 {
 		die("isTrzszLetter has %d character literals, expected 11", len(l))
 	}
-	c16Ranges(o, "trzsz_letter_ranges", l[:6])
+	c16Ranges(o, "noise_letter_ranges", l[:6])
 	o.raw("Definition trzsz_letter_singles : list N := %s.\n", nlist(l[6:]))
 	v := c03CharLits(s, s.fn("isVT100End"))
 	if len(v) != 4 {
 		die("isVT100End has %d character literals, expected 4", len(v))
 	}
-	c16Ranges(o, "vt100_end_ranges", v)
+	c16Ranges(o, "noise_vt100_end_ranges", v)
 
 	r := s.fn("trzszTransfer.recvLine")
 	rs, rc := c16StringLits(s, r), c03CharLits(s, r)
